@@ -172,6 +172,11 @@ def _boundary_standalone(ctx, m, ref, V, orient):
 def run_case(desc, ctx):
     z = volumes.make(desc["seed"], max_size=desc["max_size"], orient=desc["orient"])
     V, C = z["V"], z["C"]
+    unit = [1.0, 1.0, 1e-6, 1.0, 1e5, 1e-9][desc["seed"] % 6]
+    if unit != 1.0:
+        # the same mesh in very small / large units: every clause of the statement is combinatorial or a sign, hence unit-free
+        V = np.asarray(V, float) * unit
+        ctx.cls("units:%g" % unit)
     ref = RefVolume(len(V), C)
     rng = random.Random(desc["seed"] ^ 0x9e37)
     P = volconn.probes(ref, rng)
